@@ -18,7 +18,6 @@ import (
 	"os"
 	"os/exec"
 	"path/filepath"
-	"runtime/debug"
 	"sort"
 	"strings"
 	"sync"
@@ -372,7 +371,7 @@ func (pl *planner) planG16(rn runner, commit string, widx int) {
 	gcfgs := cfgs
 	if emu && r.Quick() {
 		gcfgs = nil
-		for _, i := range sample(rng, len(cfgs), 3) {
+		for _, i := range sample(rng, len(cfgs), 2) {
 			gcfgs = append(gcfgs, cfgs[i])
 		}
 	}
@@ -390,6 +389,9 @@ func (pl *planner) planG16(rn runner, commit string, widx int) {
 	zcfgs := []g16cfg{{"witness", true, false}, {"fixed", false, false}}
 	if emu && r.Quick() {
 		zcfgs = zcfgs[:1]
+		if commit != commitNone {
+			zcfgs = nil
+		}
 	}
 	for _, cfg := range zcfgs {
 		c := mk("genuine-zero-public-input", "pub[1]=0", cfg, pZ, A, xZ)
@@ -422,7 +424,7 @@ func (pl *planner) planG16(rn runner, commit string, widx int) {
 		}
 	}
 	replays = append(replays, mk("replay", "other-witness-proof", nextCfg(), pA1, A, x0))
-	for _, i := range sample(rng, len(replays), pick(r, emu, 2, 5, 6, len(replays))) {
+	for _, i := range sample(rng, len(replays), pick(r, emu, 1, 5, 6, len(replays))) {
 		pl.add(replays[i])
 	}
 
@@ -450,7 +452,7 @@ func (pl *planner) planG16(rn runner, commit string, widx int) {
 		cand = append(cand, e)
 	}
 	r.Count(rn.Name()+".groth16.single-edit.enumerated", len(cand))
-	for _, i := range sample(rng, len(cand), pick(r, emu, 3, 18, 30, len(cand))) {
+	for _, i := range sample(rng, len(cand), pick(r, emu, 2, 18, 24, len(cand))) {
 		e := cand[i]
 		c := mk("single-edit", e.Name, nextCfg(), e.Obj.(groth16.Proof), A, x0)
 		if nbCommit == 0 && strings.HasPrefix(e.Name, "CommitmentPok") {
@@ -483,6 +485,9 @@ func (pl *planner) planG16(rn runner, commit string, widx int) {
 
 	// 6. torsion-shifted proof elements: the pairing equations still hold, the native verifier's subgroup check does not
 	for _, e := range g16TorsionEdits(rn.Inner(), pA0) {
+		if emu && r.Quick() && commit != commitMixed {
+			continue
+		}
 		for _, sub := range []bool{true, false} {
 			for _, mode := range []string{"witness", "fixed"} {
 				if emu && r.Quick() && mode == "fixed" {
@@ -499,6 +504,9 @@ func (pl *planner) planG16(rn runner, commit string, widx int) {
 
 	// 6b. off-curve points
 	offs := g16OffCurveEdits(pA0)
+	if emu && r.Quick() && commit == commitMixed {
+		offs = nil
+	}
 	for _, i := range sample(rng, len(offs), pick(r, emu, 1, 3, 3, 3)) {
 		if offs[i].Changed {
 			pl.add(mk("off-curve-point", offs[i].Name, nextCfg(), offs[i].Obj.(groth16.Proof), A, x0))
@@ -771,7 +779,7 @@ func (pl *planner) planPlonk(rn runner, commit string, widx int) {
 		}
 	}
 	replays = append(replays, mk("replay", "other-witness-proof", nextCfg(), pA1, A, x0))
-	for _, i := range sample(rng, len(replays), pick(r, emu, 2, 5, 6, len(replays))) {
+	for _, i := range sample(rng, len(replays), pick(r, emu, 1, 5, 6, len(replays))) {
 		pl.add(replays[i])
 	}
 
@@ -797,7 +805,11 @@ func (pl *planner) planPlonk(rn runner, commit string, widx int) {
 		cand = append(cand, e)
 	}
 	r.Count(rn.Name()+".plonk.single-edit.enumerated", len(cand))
-	for _, i := range sample(rng, len(cand), pick(r, emu, 3, 18, 36, len(cand))) {
+	nEdits := pick(r, emu, 2, 18, 24, len(cand))
+	if r.Thorough() && !emu && widx > 0 {
+		nEdits = 60 // complete enumeration in world 0 only
+	}
+	for _, i := range sample(rng, len(cand), nEdits) {
 		pl.add(mk("single-edit", cand[i].Name, nextCfg(), cand[i].Obj.(plonk.Proof), A, x0))
 	}
 
@@ -874,9 +886,6 @@ func TestC17(t *testing.T) {
 	}
 	r := vcore.Start(t, "C17")
 	tStart := time.Now()
-	// the test engine allocates big.Int heavily; with many concurrent cases the
-	// collector dominates (measured: 30% of the CPU in the kernel at GOGC=100)
-	debug.SetGCPercent(800)
 	pl := &planner{r: r}
 	p := chains()[1].Inner().ScalarField()
 	pl.specialOK = hintTerminates(new(big.Int).Sub(p, big.NewInt(1))) && hintTerminates(new(big.Int).Sub(p, big.NewInt(2))) && hintTerminates(new(big.Int).Div(p, big.NewInt(3)))
@@ -968,13 +977,17 @@ func TestC17(t *testing.T) {
 	for _, ch := range chainsRun {
 		for _, s := range []string{"groth16", "plonk"} {
 			pre := ch + "." + s + "."
-			r.Require(pre+"agree.both-accept", 6)
-			r.Require(pre+"agree.both-reject", 15)
-			r.Require(pre+"agree.both-reject.class.replay", 2)
-			r.Require(pre+"agree.both-reject.class.single-edit", 4)
-			r.Require(pre+"agree.both-reject.class.other-key", 1)
-			r.Require(pre+"agree.both-reject.class.selector", 1)
-			r.Require(pre+"incircuit.unsat:constraint", 10)
+			k := int64(2) // 2-chain: cheap, many cases
+			if ch == "emulated" {
+				k = 1
+			}
+			r.Require(pre+"agree.both-accept", 4*k)
+			r.Require(pre+"agree.both-reject", 10*k)
+			r.Require(pre+"agree.both-reject.class.replay", 2*k)
+			r.Require(pre+"agree.both-reject.class.single-edit", 2*k)
+			r.Require(pre+"agree.both-reject.class.other-key", k)
+			r.Require(pre+"agree.both-reject.class.selector", k)
+			r.Require(pre+"incircuit.unsat:constraint", 6*k)
 		}
 		r.Require(ch+".groth16.agree.both-reject.class.torsion-shift", 1)
 		r.Require(ch+".groth16.agree.both-reject.class.surplus-commitment-forgery", 1)
@@ -1022,7 +1035,8 @@ func weight(c *tcase) int {
 // public input is p-1 (native Verify accepts).  A killable child process first
 // evaluates the same outer circuit on a benign public input (timing reference,
 // same cold start, same machine load), then on the special one; the watchdog
-// for the second evaluation is 3x the first (at least 60 s, at most 6 min).
+// for the second evaluation is 1.5x the first, which includes the process's cold
+// start (at least 60 s, at most 6 min; a warm evaluation takes ~1/8 of it).
 // Verdict "does not terminate" needs the watchdog AND the SIGQUIT goroutine
 // dump showing the evaluation inside eisenstein.HalfGCD.
 func hangProbe(r *vcore.Run) {
@@ -1063,7 +1077,7 @@ func hangProbe(r *vcore.Run) {
 		case <-time.After(500 * time.Millisecond):
 			if benign == 0 && strings.Contains(readLog(), "C17CHILD benign-done") {
 				benign = time.Since(t0)
-				wd := 3 * benign
+				wd := benign + benign/2
 				if wd < 60*time.Second {
 					wd = 60 * time.Second
 				}
